@@ -198,6 +198,14 @@ class _Runtime:
 
 
     @staticmethod
+    def reduce_gen(fname, iterable, elt, cond):
+        if hasattr(iterable, "__reduce_gen__"):
+            return iterable.__reduce_gen__(fname, elt, cond)
+        import builtins
+
+        return getattr(builtins, fname)(elt(x) for x in iterable if cond(x))
+
+    @staticmethod
     def fmt(template, args):
         from .models import SymFormat, has_symbolic
 
